@@ -91,3 +91,8 @@ def check(textx):
         except TextXError as e:
             logging.error("ERROR: %s", str(e))
             sys.exit(1)
+
+        except (OSError, UnicodeError) as e:
+            # A model (or a file it imports) can not be read.
+            logging.error("ERROR: %s", str(e))
+            sys.exit(1)
